@@ -75,6 +75,32 @@ pub fn run_cli(kind: &str, args: &[String], stdin: Option<&str>) -> CliObs {
     let mut c = Command::new(cli_bin(kind));
     c.args(args).env_remove("RUST_BACKTRACE").stdout(Stdio::piped()).stderr(Stdio::piped());
     die_with_parent(&mut c);
+    // stdin of another KIND than a pipe (PACE 6: a regular file whose offset is past a header that an earlier reader
+    // consumed; 7: a regular file at offset 0; 8: a socket): the data is what descriptor 0 delivers from where it stands
+    let mode = PACE.load(std::sync::atomic::Ordering::SeqCst);
+    if let (Some(text), 6..=8) = (stdin, mode) {
+        use std::io::{Seek, SeekFrom};
+        if mode == 8 {
+            let (mut ours, theirs) = std::os::unix::net::UnixStream::pair().expect("socketpair");
+            c.stdin(Stdio::from(std::os::fd::OwnedFd::from(theirs)));
+            let child = c.spawn().expect("cannot start the jsonlogic binary");
+            let _ = ours.write_all(text.as_bytes());
+            let _ = ours.shutdown(std::net::Shutdown::Write);
+            let out = child.wait_with_output().expect("wait");
+            drop(ours);
+            return CliObs { code: out.status.code(), signal: out.status.signal(), stdout: String::from_utf8_lossy(&out.stdout).into_owned(), stderr: String::from_utf8_lossy(&out.stderr).into_owned() };
+        }
+        let path = std::env::temp_dir().join(format!("jlmc-stdin-{}-{:?}", std::process::id(), std::thread::current().id()));
+        let header = if mode == 6 { "header line that an earlier reader consumed\n" } else { "" };
+        std::fs::write(&path, format!("{}{}", header, text)).expect("temp file");
+        let mut f = std::fs::File::open(&path).expect("open temp file");
+        f.seek(SeekFrom::Start(header.len() as u64)).expect("seek");
+        c.stdin(Stdio::from(f));
+        let child = c.spawn().expect("cannot start the jsonlogic binary");
+        let out = child.wait_with_output().expect("wait");
+        let _ = std::fs::remove_file(&path);
+        return CliObs { code: out.status.code(), signal: out.status.signal(), stdout: String::from_utf8_lossy(&out.stdout).into_owned(), stderr: String::from_utf8_lossy(&out.stderr).into_owned() };
+    }
     c.stdin(if stdin.is_some() { Stdio::piped() } else { Stdio::null() });
     let mut child = c.spawn().expect("cannot start the jsonlogic binary");
     if let Some(text) = stdin {
@@ -435,7 +461,7 @@ pub fn c18(ctx: &mut Ctx) {
                 (r#"{"reduce":[{"var":""},{"+":[{"var":"current"},{"var":"accumulator"}]},0]}"#, big),
             ];
             for (i, (r, d)) in cases.iter().enumerate() {
-                for mode in 1..=5usize {
+                for mode in 1..=8usize {
                     if !ctx.mine() {
                         continue;
                     }
